@@ -394,6 +394,7 @@ func c08Replay(e *core.Env, data json.RawMessage) (bool, string) {
 func init() {
 	core.Register(&core.Check{
 		ID: "C08", Level: "model_checking", Run: c08Run, Replay: c08Replay,
+		Added:       "layouts without the empty line after a block; composite elements (e.g. @performance()) compared by presence",
 		QuickBudget: 90 * time.Second, ThoroughBudget: 14 * time.Minute,
 		Rule: "every sequence of <= N directive shapes (11 shapes: open/close/price/one-,two-line and multi-line-form assertions, transactions with Unicode accounts, macros, multi-line and empty descriptions, both annotations) rendered in every layout (3 separators x LF/CRLF x trailing blanks x final newline x 3-4 inter-directive texts x annotation order), " +
 			"plus every blank-joined token sequence of C07 that parses; oracle: parse(format(x)) has identical leaf texts, gaps byte-identical, format idempotent; the format command is run on files (parseable and broken); non-trivial = parseable inputs",
